@@ -1,6 +1,7 @@
 import GwbVerif.Properties.C07
 import GwbVerif.Properties.C07Depth
 import GwbVerif.Properties.C07Box
+import GwbVerif.Properties.C07Arc
 open Gwb
 #print axioms C07_cull_pretest_only
 #print axioms C07_no_member_discarded
@@ -22,6 +23,13 @@ open Gwb
 #print C07_bbox_cutoff_sound_old_geom
 #print axioms C07_bbox_cutoff_sound_old_false
 #print axioms C07_bbox_old_discards_member
+#print axioms C07_arc_chord_le_arc
+#print axioms C07_depth_arc_piece_geometry
+#print axioms C07_depth_arc_piece_invariant
+#print axioms C07_straight_is_arc_walk
+#print axioms C07_arc_walk_bound
+#print axioms C07_depth_cutoff_sound_arcs
+#print axioms C07_bbox_cutoff_sound_arcs
 #print C07_bbox_cutoff_sound_full
 #check @C07_cull_pretest_only
 #check @C07_no_member_discarded
@@ -41,3 +49,10 @@ open Gwb
 #check @C07_bbox_cutoff_sound_closest
 #check @C07_bbox_cutoff_sound_old_false
 #check @C07_bbox_old_discards_member
+#check @C07_arc_chord_le_arc
+#check @C07_depth_arc_piece_geometry
+#check @C07_depth_arc_piece_invariant
+#check @C07_straight_is_arc_walk
+#check @C07_arc_walk_bound
+#check @C07_depth_cutoff_sound_arcs
+#check @C07_bbox_cutoff_sound_arcs
